@@ -36,12 +36,18 @@ Definition state_after (d : database) (app : A) (cb : option (A * database * c_r
   match cb with Some (app', d', _) => (d', app') | None => (d, app) end.
 End Defs.
 
+(* The device map of the C ABI: rodbus_device_map_add_endpoint creates ONE RequestHandlerWrapper (one Database)
+   per unit id and refuses a unit id twice, so no two unit ids share a handler object: the handler index of a
+   unit id is the unit id itself. *)
+Definition device_map {St} (ids : list N) (store : N -> St) : ucfg St :=
+  {| u_map := map (fun u => (u, u)) ids; u_store := store |}.
+
 (* projections of a session result (replies, units, log, end) *)
 Definition replies_of {A B C D} (x : A * B * C * D) : A := fst (fst (fst x)).
 Definition final_units_of {A B C D} (x : A * B * C * D) : B := snd (fst (fst x)).
 
 (* the unit map when the k-th frame (counting from 0) of a connection is taken up, as the CODE
    model computes it: the final unit map of the session over the first k frames *)
-Definition units_before {St} (H : handler St) (l : link) (a : auth) (units : list (N * St)) (frames : list frame) (k : nat)
-  : list (N * St) :=
+Definition units_before {St} (H : handler St) (l : link) (a : auth) (units : ucfg St) (frames : list frame) (k : nat)
+  : ucfg St :=
   final_units_of (session H l a units (firstn k frames)).
